@@ -71,6 +71,8 @@ func (r *SparseFloat64Matrix) MaddS(a ConstMatrix, b ConstScalar) Matrix {
   if n1 != n || m1 != m {
     panic("matrix dimensions do not match!")
   }
+  // b might be an element of r, which is overwritten below
+  b = b.CloneConstScalar()
   for i := 0; i < n; i++ {
     for j := 0; j < m; j++ {
       r.At(i, j).Add(a.ConstAt(i, j), b)
@@ -106,6 +108,8 @@ func (r *SparseFloat64Matrix) MsubS(a ConstMatrix, b ConstScalar) Matrix {
   if n1 != n || m1 != m {
     panic("matrix dimensions do not match!")
   }
+  // b might be an element of r, which is overwritten below
+  b = b.CloneConstScalar()
   for i := 0; i < n; i++ {
     for j := 0; j < m; j++ {
       r.At(i, j).Sub(a.ConstAt(i, j), b)
@@ -146,6 +150,8 @@ func (r *SparseFloat64Matrix) MmulS(a ConstMatrix, b ConstScalar) Matrix {
   if n1 != n || m1 != m {
     panic("matrix dimensions do not match!")
   }
+  // b might be an element of r, which is overwritten below
+  b = b.CloneConstScalar()
   for it := r.JOINT_ITERATOR(a); it.Ok(); it.Next() {
     s_r := it.s1
     s_a := it.s2
@@ -188,6 +194,8 @@ func (r *SparseFloat64Matrix) MdivS(a ConstMatrix, b ConstScalar) Matrix {
   if n1 != n || m1 != m {
     panic("matrix dimensions do not match!")
   }
+  // b might be an element of r, which is overwritten below
+  b = b.CloneConstScalar()
   if b.GetFloat64() == float64(0) {
     for i := 0; i < n; i++ {
       for j := 0; j < m; j++ {
